@@ -510,6 +510,49 @@ def gen_symm_block(rnd):
     return out
 
 
+def gen_overlap_block(rnd):
+    """3-6 memory (or storage) accesses at two constant addresses x and x+d with d at the boundaries of the 32-byte
+    word (1, 30..33, 63, 64, and their negatives), mixing MSTORE / MSTORE8 / MLOAD / KECCAK256 with lengths around the
+    distance; load and hash results stay on the stack.  Every off-by-one in an overlap test shows on these."""
+    out = []
+    nin = rnd.choice([1, 2, 2, 3])
+    if rnd.random() < 0.8:
+        x = rnd.choice([0, 0x20, 0x40, 0x60, 0x80])
+        d = rnd.choice([1, 31, 32, 33, 30, 63, 64, 0, -1, -31, -32, -33])
+        y = max(0, x + d)
+        extra = 0
+        for _ in range(rnd.randrange(3, 7)):
+            a = rnd.choice([x, y, x, y, x + 1])
+            k = rnd.random()
+            val = [("DUP%d" % (extra + 1 + rnd.randrange(nin)), None)] if rnd.random() < 0.7 else [("PUSH", hexv(rand_const(rnd)))]
+            if k < 0.3:
+                out += val + [("PUSH", hexv(a)), ("MSTORE", None)]
+            elif k < 0.55:
+                out += val + [("PUSH", hexv(a)), ("MSTORE8", None)]
+            elif k < 0.85:
+                out += [("PUSH", hexv(a)), ("MLOAD", None)]
+                extra += 1
+            else:
+                n = rnd.choice([1, 31, 32, 33, 64, abs(d) or 32, abs(d) + 1])
+                out += [("PUSH", hexv(n)), ("PUSH", hexv(a)), ("KECCAK256", None)]
+                extra += 1
+            if extra + nin >= 14:
+                break
+    else:
+        k0 = rnd.choice([0, 1, 0x20])
+        keys = [k0, k0 + 1, k0]
+        extra = 0
+        for _ in range(rnd.randrange(3, 6)):
+            key = [("PUSH", hexv(rnd.choice(keys)))] if rnd.random() < 0.7 else [("DUP%d" % (extra + 1 + rnd.randrange(nin)), None)]
+            if rnd.random() < 0.55:
+                val = [("DUP%d" % (extra + 1 + rnd.randrange(nin)), None)] if rnd.random() < 0.7 else [("PUSH", hexv(rnd.choice([0, 1, 2])))]
+                out += val + ([("DUP%d" % (int(key[0][0][3:]) + 1), None)] if key[0][0].startswith("DUP") else key) + [("SSTORE", None)]
+            else:
+                out += key + [("SLOAD", None)]
+                extra += 1
+    return out
+
+
 def gen_tradeoff_block(rnd):
     """Fragments with alternatives that trade one cost for another (gas / bytes / instruction count): a value that
     can be duplicated or produced again (2-gas environment reads, zero pushes, one-byte and wide constants), a
@@ -549,7 +592,8 @@ def gen_tradeoff_block(rnd):
 
 
 def gen_block(rnd, kind=None):
-    kind = kind or rnd.choices(["rule", "grammar", "mem", "split", "deep", "dupterms", "symm"], [4, 3, 3, 1.5, 0.7, 1.0, 0.8])[0]
+    kind = kind or rnd.choices(["rule", "grammar", "mem", "split", "deep", "dupterms", "symm", "overlap"],
+                               [4, 3, 3, 1.5, 0.7, 1.0, 0.8, 1.2])[0]
     if kind == "rule":
         return gen_rule_block(rnd), kind
     if kind == "grammar":
@@ -591,6 +635,8 @@ def gen_block(rnd, kind=None):
         return gen_symm_block(rnd), kind
     if kind == "tradeoff":
         return gen_tradeoff_block(rnd), kind
+    if kind == "overlap":
+        return gen_overlap_block(rnd), kind
     if kind == "dupterms":
         # the same term computed twice (operands in the other order for commutative operations, repeated loads /
         # hashes / environment reads), then combined or stored: exercises the unification of duplicated instructions
